@@ -13,8 +13,11 @@ class VfsLookup:
 
 
 def handle_vfs_lookup(parser, events):
-    node = parser.parse_vnode(events)
-    return VfsLookup(events, node.path, node.vnode_id)
+    nodes = parser.parse_vnodes(events)
+    if not nodes:
+        # A continuation chunk of a path split over several events, the whole path is reported by its START..END.
+        return None
+    return VfsLookup(events, nodes[0].path, nodes[0].vnode_id)
 
 
 handlers = {
